@@ -240,6 +240,13 @@ func registerSym() {
 		a, _ := intTerm(args[0])
 		return fr.i.mkInt(smt.Mul(a, smt.IntConst(1000000)), kindInt64, true)
 	})
+	regSym("Domain", func(fr *frame, args []value) value {
+		fr.i.isolate = true
+		if fr.g != nil {
+			fr.g.domain = args[0].(int)
+		}
+		return nil
+	})
 	regSym("CheckLeaks", func(fr *frame, args []value) value { fr.i.path.leakCheck = true; return nil })
 	regSym("PoolNondet", func(fr *frame, args []value) value { fr.i.path.poolNondet = true; return nil })
 	regSym("SetGOMAXPROCS", func(fr *frame, args []value) value { fr.i.path.gomaxprocs = args[0].(int); return nil })
